@@ -500,6 +500,8 @@ class RunLengthArray(NPSIndexable, np.lib.mixins.NDArrayOperatorsMixin):
         return RunLengthRaggedArray(*self._start_to_end(starts, stops))
 
     def _get_slice(self, s: slice) -> 'RunLengthArray':
+        # bounds given as numpy integers of a narrow dtype would make len(self)+bound overflow that dtype
+        s = slice(*(None if v is None else int(v) for v in (s.start, s.stop, s.step)))
         step = 1 if s.step is None else s.step
         is_reverse = step < 0
         start = 0
